@@ -324,7 +324,11 @@ class Shard(ShardCMC):
             data_size = 0
             for minishard in sorted_mini_dict:
                 minishard.close()
-
+            # A minishard holds nothing if the only store into it failed with
+            # an I/O error: leave it out, as if that store had not happened
+            sorted_mini_dict = [minishard for minishard in sorted_mini_dict
+                                if len(minishard.header) > 0]
+            for minishard in sorted_mini_dict:
                 for b in minishard.databytearray:
                     fp.write(b)
 
